@@ -263,6 +263,15 @@ def run_mesh(spec):
     y = td["total_dos"]
     if not np.isfinite(y).all() or y.min() < -1e-10:
         return Out(ok=False, msg="tetrahedron total DOS negative or not finite: min %r" % y.min())
+    # the same grid walked downwards (freq_min > freq_max, negative pitch): every point is evaluated on its own
+    ph.run_total_dos(use_tetrahedron_method=True, freq_min=fmin - 0.1 * span, freq_max=fmin - 0.1 * span + 40 * (span / 33), freq_pitch=span / 33)
+    up = {k: np.array(v, copy=True) for k, v in ph.get_total_dos_dict().items()}
+    ph.run_total_dos(use_tetrahedron_method=True, freq_min=float(up["frequency_points"][-1]), freq_max=float(up["frequency_points"][0]), freq_pitch=-span / 33)
+    dn = ph.get_total_dos_dict()
+    if len(dn["frequency_points"]) == len(up["frequency_points"]) and np.abs(dn["frequency_points"][::-1] - up["frequency_points"]).max() < 1e-9 * max(1.0, span):
+        if np.abs(dn["total_dos"][::-1] - up["total_dos"]).max() > 1e-9 * max(1.0, np.abs(up["total_dos"]).max()):
+            return Out(ok=False, msg="tetrahedron DOS on a descending frequency grid differs from the same points ascending: max diff %.3e"
+                       % np.abs(dn["total_dos"][::-1] - up["total_dos"]).max())
     # a window given in whole numbers: Python ints and the same values as floats are the same request
     i0, i1 = int(np.floor(fmin)) - 1, int(np.ceil(fmax)) + 1
     ph.run_total_dos(use_tetrahedron_method=True, freq_min=i0, freq_max=i1, freq_pitch=1)
